@@ -106,6 +106,19 @@ pub fn c11(rng: &mut Rng, _tier: &str, idx: usize) -> Case {
         c.nontrivial = true;
         return c;
     }
+    if idx % 25 == 11 {
+        // more than 30 common ancestors, shortcuts to high ancestors, a term with > 10 parents
+        let mut c = Case::new("trunk");
+        let mut f = gen_trunk(rng);
+        let path = rng.below(5);
+        construct(rng, path, &mut f, &mut c, true, false);
+        facts_stats(&f, &mut c);
+        c.stat("trunk_cases", 1);
+        c.op("dist 0".to_string());
+        c.op("oracle paths 0".to_string());
+        c.nontrivial = true;
+        return c;
+    }
     let mut c = Case::new("dist");
     let path = rng.below(5);
     let with_roots = path >= 2 || rng.chance(1, 3); // `from_bytes` needs HP:1 and HP:118
@@ -173,7 +186,14 @@ pub fn c11(rng: &mut Rng, _tier: &str, idx: usize) -> Case {
 
 // ---------------------------------------------------------------- C14
 
-pub fn c14(rng: &mut Rng, _tier: &str, _idx: usize) -> Case {
+pub fn c14(rng: &mut Rng, _tier: &str, idx: usize) -> Case {
+    if idx % 6 == 4 {
+        // a random DAG on 5 nodes with EVERY root and EVERY leaf set below it (several leaves,
+        // cuts above retained terms)
+        let mut c = crate::props::small_dag_case("C14", 5, rng.below(1024) as usize, rng.below(120) as usize);
+        c.tag = "five-nodes-all-queries".to_string();
+        return c;
+    }
     let mut c = Case::new("sub");
     let max_terms = *rng.pick(&[4usize, 8, 12, 16]);
     let (mut f, shape) = gen_facts(rng, &DagOpts { max_terms, with_roots: true, max_recs: 5 });
